@@ -679,6 +679,40 @@ pub mod codecs {
 
 /// Events: internal steps of the database reported to a harness-installed observer. With no
 /// observer installed an event costs one read-lock.
+/// The LRU cache behind the block cache and the table cache (`src/utils/cache.rs`).
+pub mod caches {
+    use crate::utils::cache::{Cache, LRUCache};
+
+    pub struct VLru(LRUCache<u64, u64>);
+
+    impl VLru {
+        pub fn new(capacity: usize) -> Self {
+            VLru(LRUCache::new(capacity))
+        }
+
+        /// Insert and return the value of the entry handed back.
+        pub fn insert(&self, key: u64, value: u64) -> u64 {
+            *self.0.insert(key, value).get_value()
+        }
+
+        pub fn get(&self, key: u64) -> Option<u64> {
+            self.0.get(&key).map(|e| *e.get_value())
+        }
+
+        pub fn remove(&self, key: u64) {
+            self.0.remove(&key)
+        }
+
+        pub fn len(&self) -> usize {
+            self.0.len()
+        }
+
+        pub fn is_empty(&self) -> bool {
+            self.0.is_empty()
+        }
+    }
+}
+
 pub mod events {
     use std::sync::{Arc, RwLock};
 
